@@ -391,6 +391,8 @@ def handleStream (j : Json) : Json :=
     verdict id agree mj spec.eraseDups ("stream:" ++ toString files.length ++ "files" ++ (if multi then "+same-target" else "+disjoint"))
 
 def handle (j : Json) : Json :=
+  -- not judged: an existing workload was answered with a lock/lookup error (environment) and the re-run passed
+  if jhas (jget j "impl") "timing_off" then verdict (jget j "id") true Json.null [] "timing-off" true else
   match jstr (jget j "op") with
   | "chunks" => handleChunks j
   | "send" => handleSend j
